@@ -88,6 +88,16 @@ func jobsFor(id, tier string) []*Job {
 				bp = append(bp, []int{sh, shards2, 2, 0})
 			}
 		}
+		// every built-in with two arguments from the reduced boundary shape set (16 x 16), in every tier
+		var qp [][]int
+		for sh := 0; sh < shards2; sh++ {
+			qp = append(qp, []int{sh, shards2, 2, 3})
+		}
+		qj := wmk("boundary2", "zzverifw.H_C01_builtin", qp)
+		qj.TimeoutS = 240
+		qj.SolverMs = 2000
+		qj.MaxSteps = 1000000
+		add(split(qj)...)
 		bj := wmk("builtin", "zzverifw.H_C01_builtin", bp)
 		if !thorough {
 			bj.TimeoutS = 60
@@ -128,6 +138,8 @@ func jobsFor(id, tier string) []*Job {
 		for sh := 0; sh < 6; sh++ {
 			dp = append(dp, []int{1, sh, 6}) // hex: 22 first digits in 6 shards
 		}
+		sx := mk("strctx", "zzverifw.H_C17_strctx", nil) // real lexer: no token feed
+		add(&sx)
 		for _, j := range []Job{mk("int", "zzverifw.H_C17_int", ints(0, 3)), mk("digits", "zzverifw.H_C17_digits", dp), mk("expint", "zzverifw.H_C17_expint", nil), mk("str", "zzverifw.H_C17_str", nil), mk("float", "zzverifw.H_C17_float", nil)} {
 			j.Overrides = lexOv
 			if len(j.Params) > 0 {
@@ -185,7 +197,7 @@ func jobsFor(id, tier string) []*Job {
 		add(split(mj)...)
 	case "C19":
 		var fp [][]int
-		for hh := 0; hh < 24; hh++ {
+		for hh := 0; hh < 27; hh++ {
 			if thorough {
 				fp = append(fp, []int{hh, -1}) // every later program
 			} else {
@@ -232,7 +244,7 @@ func jobsFor(id, tier string) []*Job {
 			}
 		}
 		add(split(wmk("bind", "zzverifw.H_C03_bind", bp))...)
-		add(split(wmk("scope", "zzverifw.H_C03_scope", ints(0, 18)))...)
+		add(split(wmk("scope", "zzverifw.H_C03_scope", ints(0, 20)))...)
 	case "C04":
 		nmax := 2
 		if thorough {
@@ -260,6 +272,8 @@ func jobsFor(id, tier string) []*Job {
 		add(split(wmk("reduce", "zzverifw.H_C04_reduce", rp))...)
 		add(split(wmk("scalar", "zzverifw.H_C04_scalar", scp))...)
 		add(split(wmk("recv", "zzverifw.H_C04_recv", ints(0, 6)))...)
+		dg := wmk("digest", "zzverifw.H_C04_digest", nil)
+		add(&dg)
 	case "C09":
 		op := [][]int{{1, 0}, {2, 0}, {3, 0}, {2, 2}, {1, 2}}
 		mp := [][]int{{1, 0, 0, -1}, {2, 0, 0, -1}, {1, 1, 0, -1}, {0, 1, 1, -1}}
@@ -319,6 +333,9 @@ func jobsFor(id, tier string) []*Job {
 						ps = append(ps, []int{l, i, op, narrow, 1, -1}) // family without declared parameters
 					}
 					if i == 0 && op <= 2 && (l == 1 || thorough) {
+						ps = append(ps, []int{l, i, op, 1, 3, -1}) // family with recur written before the yield (narrow ranges)
+					}
+					if i == 0 && op <= 2 && (l == 1 || thorough) {
 						// family whose first yield gives nil for one argument value (narrow ranges in quick)
 						nr := narrow
 						if !thorough {
@@ -330,6 +347,8 @@ func jobsFor(id, tier string) []*Job {
 			}
 		}
 		add(split(wmk("iter", "zzverifw.H_C14_iter", ps))...)
+		cj := wmk("capture", "zzverifw.H_C14_capture", nil)
+		add(&cj)
 	case "C13":
 		kmax := 2
 		if thorough {
@@ -361,7 +380,7 @@ func jobsFor(id, tier string) []*Job {
 		add(split(wmk("ord", "zzverifw.H_C18_ord", ints(0, 5)))...)
 		add(split(wmk("trans", "zzverifw.H_C18_trans", ints(0, 5)))...)
 	case "C08":
-		o := wmk("order", "zzverifw.H_C08_order", ints(0, 41))
+		o := wmk("order", "zzverifw.H_C08_order", ints(0, 48))
 		o.MapOrder = 1
 		o.ReplayRepeat = 400
 		if thorough {
@@ -369,7 +388,7 @@ func jobsFor(id, tier string) []*Job {
 		}
 		add(split(o)...)
 	case "C07":
-		add(split(wmk("inject", "zzverifw.H_C07_inject", ints(0, 30)))...)
+		add(split(wmk("inject", "zzverifw.H_C07_inject", ints(0, 46)))...)
 	case "C15":
 		nmax := 3
 		if thorough {
@@ -428,7 +447,7 @@ func assumptionsFor(id string) []string {
 	}
 	switch id {
 	case "C01":
-		return append(common, "built-ins are called directly through their Fn with (env, empty kwargs, args...) as the evaluator does; the list of built-ins is discovered at run time from every object named in the constants environment", "scalar arguments are symbolic (any int64, any float64 bit pattern) for arity 0..1 and boundary constants for arity 2; other argument shapes are concrete values of every kind (26 shapes)", "skipped: Kernel.import / invite! / exit, Str.eval / evalEnv (process, file and nested-evaluation I/O); IO is not injected, so printing built-ins end in NameErr", "paths on which a symbolic value reaches a concrete-only intrinsic (formatting, strings.Repeat, JSON) are abandoned as unsupported and counted")
+		return append(common, "built-ins are called directly through their Fn with (env, empty kwargs, args...) as the evaluator does; the list of built-ins is discovered at run time from every object named in the constants environment", "scalar arguments are symbolic (any int64, any float64 bit pattern) for arity 0..1 and boundary constants for arity 2; other argument shapes are concrete values of every kind (26 shapes)", "skipped: Kernel.import / invite! / exit, Str.eval / evalEnv (process, file and nested-evaluation I/O); IO is injected with an exhausted standard input and a discarded output", "paths on which a symbolic value reaches a concrete-only intrinsic (formatting, strings.Repeat, JSON) are abandoned as unsupported and counted")
 	case "C17":
 		return append(common, "literals: one-token programs through the real yyParse actions (token feed in the engine, real lexer natively); spellings are solver choices from pools built around the representability boundaries; oracle = positional value computed by the harness (ints), whole-literal correctly rounded conversion (floats), the documented escapes (strings)", "names: see coverage.extra.names_assumptions (token table executed from the repo, regexps translated to SMT regular languages)")
 	case "C16":
@@ -436,7 +455,7 @@ func assumptionsFor(id string) []string {
 	case "C02":
 		return append(common, "in the engine (*Lexer).Lex is replaced by a token feed (token ids from the grammar's own constants); natively the same words are rendered to source text and lexed by the real regex lexer — every natively replayed path cross-checks the token model", "oracle: the documented table of docs/reference/operators.md (not the %left lines): the expression as written and the expression with the implied parentheses inserted must print the same AST")
 	case "C19":
-		return append(common, "inductive step: every value reachable from the shared constants environment (and the shared NotImplementedErr) is fingerprinted; one evaluation in a fresh enclosed scope must leave it unchanged, and a later program must print the same value / error / stack trace as before the history — by induction this covers histories of any length", "os.Open is served from harness-provided virtual files in the engine (real temporary files in the native replay); writes to stderr are no-op stubs", "symbol tables only grow and are excluded from the fingerprint (C20)")
+		return append(common, "inductive step: every value reachable from the shared constants environment (and the shared NotImplementedErr) is fingerprinted; one evaluation in a fresh enclosed scope must leave it unchanged, and a later program must print the same value / error / stack trace as before the history — by induction this covers histories of any length", "os.Open is served from harness-provided virtual files in the engine (real temporary files in the native replay); writes to stderr are no-op stubs", "symbol tables only grow and are excluded from the fingerprint (C20); what is asserted of them is that every object they hand out is a plain str (prototype Str, the registered text)")
 	case "C06":
 		return append(common, "fingerprint = deep structure of every live value (element / pair / bound identities by Go pointer, scalar payloads, key lists, prototype pointer), taken when the value is created and compared after every operation", "operations are called through Obj.callProp(receiver, name, argument); I/O and evaluation properties (p, puts, print, import, invite!, exit, assert*, eval, evalEnv, decJSON, S, repr, tap, try, then) are not operations on values and are skipped", "native Go slices inside the engine have the same 16-byte element size as []object.PanObject, so append growth and spare capacity are those of the real runtime")
 	case "C03":
@@ -448,7 +467,7 @@ func assumptionsFor(id string) []string {
 	case "C05":
 		return append(common, "every object carries a unique id property, so structural == (used by ancestors/kindOf?) coincides with identity", "forest model (parent, defined kinds, _missing) kept by the harness; expected raw property values are read from the definer's own Pairs map")
 	case "C14":
-		return append(common, "iterator families: <{|n| yield n * 10 + 1 if n < lim; recur(n + d)}>, a body whose first yield gives nil for one argument value z in [-3,5] (quick: z in [-1,2] with the narrow ranges) and is followed by a second yield and a non-nil last statement (<{|n| yield (nil if n == z else n * 10 + 1) if n < lim; recur(n + d); yield 77; n * 10 + 7}>), and the first body written without declared parameters (<{yield \\ * 10 + 1 if \\ < lim; recur(\\ + d)}>), with lim in [-2,5], d in [1,3], start values in [-3,5] — all symbolic within those ranges", "reference = per-iterator state machine in the harness (DESIGN.md 5.14)")
+		return append(common, "iterator families: <{|n| yield n * 10 + 1 if n < lim; recur(n + d)}>, a body whose first yield gives nil for one argument value z in [-3,5] (quick: z in [-1,2] with the narrow ranges) and is followed by a second yield and a non-nil last statement (<{|n| yield (nil if n == z else n * 10 + 1) if n < lim; recur(n + d); yield 77; n * 10 + 7}>), a body with recur written before the yield (<{|n| recur(n + d); yield n * 10 + 1 if n < lim}>), bodies whose yielded value captures the step's arguments in a closure (H_C14_capture, lim in [0,4], d in [1,2], start in [-1,2]), and the first body written without declared parameters (<{yield \\ * 10 + 1 if \\ < lim; recur(\\ + d)}>), with lim in [-2,5], d in [1,3], start values in [-3,5] — all symbolic within those ranges", "reference = per-iterator state machine in the harness (DESIGN.md 5.14)")
 	case "C13":
 		return append(common, "steps are methods of a receiver object, literal calls, and operator calls written in chain form (.+(n)); step names are ones the Either wrapper does not define itself (DESIGN.md Appendix B, C13 domain note) — names the wrapper's own prototype chain answers (A, val, ==, S, p, keys ...) never reach the _missing proxy and are outside the domain", "failures are injected inside the callee (step(i) raises iff i == K); a raise during argument evaluation happens before the call and is not a failure of the step")
 	case "C18":
@@ -483,7 +502,8 @@ func boundsFor(id, tier string, jobs []*Job) map[string]interface{} {
 		} else {
 			b["arity"] = "0 and 1 argument for every built-in; 2 arguments for a quarter of them (6 of 24 shards)"
 		}
-		b["repl"] = "sessions of three lines through the real StartREPL: first line any line of the generated pool (every string literal of /repo/runscript - the REPL's commands and prompts - as written, upper / lower / capitalised, with leading / trailing blanks, truncated, doubled, with a trailing ;) or a program; second line a command, a miscased command, a program, an unfinished program or empty; third line 1 + 1"
+		b["repl"] = "sessions of three lines through the real StartREPL: first line any line of the generated pool (every string literal of /repo/runscript - the REPL's commands and prompts - as written, upper / lower / capitalised, with leading / trailing blanks, truncated, doubled, with a trailing ;) or a program; second line a command, a miscased command, a program, an unfinished program or empty; third line 1 + 1 or a program reading standard input after it is exhausted (<>.S, <>.p, interpolation, <>.uc, iteration)"
+		b["two_arguments_boundary"] = "EVERY built-in with two arguments drawn from a reduced boundary set of 16 shapes (nil, empty and small str / arr / obj / map, range, function, 0, -1, 7, the smallest int64, 0.0, NaN, true): all 256 combinations per built-in, not time-boxed"
 		b["indexers"] = "every built-in named at (what recv[index] calls) with receiver any shape and index any shape, incl. [i] with i any int64 and [(a:b:c)] / (a:b:c) with each bound nil or any int64"
 		b["argument_shapes"] = "symbolic int, symbolic float, nil, bool, strs, arrays, objects, maps, ranges, function, iterator, Either values, error value, prototypes, bear children, symbol, char (solver choice per position)"
 		b["second_step"] = "for arity 0..1 every non-error result is then printed, compared, unpacked with * and ** into calls and literals, iterated and interpolated (14 consumers)"
@@ -493,6 +513,7 @@ func boundsFor(id, tier string, jobs []*Job) map[string]interface{} {
 		b["exponent_ints"] = "17 mantissas (incl. leading zeros: 010, 0_10, 09, 0012, 0100, 0, 00, 08) x 11 exponents x e/E"
 		b["floats"] = "14 spellings incl. subnormal, max, overflow, double-rounding-sensitive decimals"
 		b["strings"] = "17 bodies: documented escapes, multi-byte text, undefined escapes"
+		b["strings_in_context"] = "13 bodies (incl. ones ending in an escaped backslash or an escaped quote) x 7 contexts in which further tokens follow on the same line (another string, a symbol, brackets, a call, an object literal), through the real lexer and parser"
 		if tier == "thorough" {
 			b["names"] = "all names of length <= 12"
 		} else {
@@ -500,7 +521,7 @@ func boundsFor(id, tier string, jobs []*Job) map[string]interface{} {
 		}
 	case "C16":
 		b["state"] = "buffered bytes 0..4096, unread input 0..8192, run of blanks before the token 0..3000, token length 1..1024 and 1..6000 (each symbolic)"
-		b["reader"] = "full reader and arbitrary short reads"
+		b["reader"] = "full reader and arbitrary short reads; at content level the last bytes arrive either before or together with io.EOF (solver choice)"
 		b["layout"] = "19 templates with 1..3 places where a line break is written (after commas and opening brackets of literals and calls, between statements, in function / method / iterator bodies, before every multi-line chain link |. |@ |$ |&. |~. |=. |&@ |~@ |=@ |~$); each place gets a solver choice of 12 layout runs (blank lines, lines of spaces / tabs, comment lines at column 0 and indented, trailing blanks, indentation before the next token); real lexer and parser; AST must print as with plain line breaks"
 		b["content_level"] = "4 concrete sources with multi-byte characters in strings, raw strings, comments, char literals and interpolations, lexed by the real token table through a reader with a solver-chosen chunk size from {1, 2, 3, 5, 7, 16, 2048}; the token texts must equal those of a single full read"
 		if tier == "thorough" {
@@ -518,11 +539,11 @@ func boundsFor(id, tier string, jobs []*Job) map[string]interface{} {
 		b["mixed_forms"] = "28 templates (the prefix operator in a template is a solver choice of - + ! /~): prefix vs chain / infix / **, chain vs infix, indexing and calling vs prefix, calls and indexes as operands, := += => (right-to-left, relative levels), return / raise, if / if-else with infix conditions and branches, arguments and index expressions — infix slots are solver choices (third slot: one operator per level)"
 	case "C19":
 		b["builtins_as_operands"] = "history = one of the 58 call-site / literal constructs of C06 (keyword and positional unpacking, ** merging, bear / bro / patch, concatenation, interpolation, chains, digest, equality) applied to the SHARED built-in objects (Int, Str, Obj, Arr, Nil, Map, Float, Func, BaseObj, Iterable, Comparable) under 3 bindings (solver choice); afterwards the whole constants environment is fingerprint-equal and a fresh program sees the same property lists"
-		b["program_family"] = "24 programs (incl. invite! / import of a standard module and a later program naming one of its variables; three that run built-in iterators past their end and four that reach the abstract Either props by indexing, at and callProp): value, raise, nested raise, the variable _, abstract Either props, NoPropErr, shadowing built-in names, failing chain, bear, try capturing _, raising defer, abandon, interpolation"
+		b["program_family"] = "27 programs (incl. hashing a descendant of Str under a fresh text, and a later evalEnv that gets its key objects from the symbol table; invite! / import of a standard module and a later program naming one of its variables; three that run built-in iterators past their end and four that reach the abstract Either props by indexing, at and callProp): value, raise, nested raise, the variable _, abstract Either props, NoPropErr, shadowing built-in names, failing chain, bear, try capturing _, raising defer, abandon, interpolation"
 		if tier == "thorough" {
 			b["pairs"] = "every (history program, later program) pair: 14 x 14, later program a solver choice"
 		} else {
-			b["pairs"] = "every history program x later program in {same program, _, Either.A, plain raise, exhausted array iterator, exhausted str iterator after withI, Either['A], the module variable message} (solver choice)"
+			b["pairs"] = "every history program x later program in {same program, _, Either.A, plain raise, exhausted array iterator, exhausted str iterator after withI, Either['A], the module variable message, evalEnv keys} (solver choice)"
 		}
 		b["runtest"] = "3 first files x 3 second files through the real setup + runTest"
 	case "C06":
@@ -533,7 +554,7 @@ func boundsFor(id, tier string, jobs []*Job) map[string]interface{} {
 		b["two_steps"] = "first any Arr property on the literal array with argument [7] / 2 / function; then one of 8 array-building properties (+ * append prepend zip chain map rev) on the same receiver or on the first result; payloads concrete (quick) and symbolic ints in (1, 100) (thorough)"
 	case "C03":
 		b["binding"] = "0..3 positional and 0..2 keyword parameters (all 12 signatures) x 0..4 positional arguments (tail optionally as *[...]) x each of k1, k2 and one keyword the function does not declare (named zz, p1 like the first positional parameter, or g like the outer variable the body reads: solver choice) absent / before the positionals / after them / through **{...} (solver choices)"
-		b["scoping"] = "19 scenarios (incl. keyword defaults of a literal evaluated twice in different scopes; an undeclared keyword named like a parameter / outer variable; nested * and ** unpacking of the same array / object in one call; closure sees later reassignment, never the caller's scope, assignment and compound assignment stay local, sibling isolation, recursion frames, shadowing, function-making functions, receiver first, receiver-less chain, fresh frame per call, closures made in a chain, nested closures, method scope) with inputs a, b any int in (-10^6, 10^6)"
+		b["scoping"] = "21 scenarios (incl. calls with 11 and 12 arguments reading every \\N; keyword defaults of a literal evaluated twice in different scopes; an undeclared keyword named like a parameter / outer variable; nested * and ** unpacking of the same array / object in one call; closure sees later reassignment, never the caller's scope, assignment and compound assignment stay local, sibling isolation, recursion frames, shadowing, function-making functions, receiver first, receiver-less chain, fresh frame per call, closures made in a chain, nested closures, method scope) with inputs a, b any int in (-10^6, 10^6)"
 	case "C04":
 		if tier == "thorough" {
 			b["elements"] = "arrays of 1..3 elements"
@@ -542,13 +563,14 @@ func boundsFor(id, tier string, jobs []*Job) map[string]interface{} {
 		}
 		b["contexts"] = "list chains @ =@ ~@ &@ (with and without a [] chain argument), reduce chains $ =$ ~$ from an initial accumulator, scalar chains . =. ~. &. ; each in property-call, literal-call and variable-call form"
 		b["payloads"] = "element payload any int in (-1000, 1000) or nil; accumulator payload any int in (-1000, 1000); nil values are the literal nil and, in a second family, nils made with Nil.bear({}).new (both as elements and as call results)"
+		b["chain_argument_digest"] = "8 receivers (empty, all-nil, results all nil, results that are pairs, mixed, int, str, obj) x 6 chain arguments (empty and non-empty obj / map / arr) x 4 list chains: property, literal and variable call must give the same digest (also when nothing is collected)"
 		b["receivers"] = "additionally int, str, range, obj, map, iterator, arr receivers with the total property S (three-form agreement only)"
 	case "C09":
 		if tier == "thorough" {
-			b["object_literals"] = "1..4 pairs, or 1..3 pairs + a ** of 2 pairs; every name a solver choice from {a, b, _p}"
+			b["object_literals"] = "1..4 pairs, or 1..3 pairs + a ** of 2 pairs; every name a solver choice from {a, b, _p, a!, ab}"
 			b["map_literals"] = "1..3 pairs, or 1..2 pairs + a ** of 1..2 pairs"
 		} else {
-			b["object_literals"] = "1..3 pairs, or 1..2 pairs + a ** of 2 pairs; every name a solver choice from {a, b, _p}"
+			b["object_literals"] = "1..3 pairs, or 1..2 pairs + a ** of 2 pairs; every name a solver choice from {a, b, _p, a!, ab}"
 			b["map_literals"] = "1..2 pairs, 1 pair + a ** of 1 pair, and 0..1 pairs + two ** expansions of 1 pair each"
 		}
 		b["map_keys"] = "kind per key a solver choice of int (any int64), float (any non-NaN, non -0.0 pattern), str (pool of 4, incl. the names len and keys of Map's own properties), nil, bool, one-element array of any int64 — whether two keys collide is decided by the solver; the first pair stores an int or nil (solver choice)"
@@ -561,7 +583,7 @@ func boundsFor(id, tier string, jobs []*Job) map[string]interface{} {
 			b["forest"] = "2 objects (names x, y; all property kinds) and 3 objects (name x; kinds absent / value / function); each later object is a bear child or a bro sibling of a solver-chosen earlier object"
 			b["properties"] = "names x, y per object; _missing present or not per object; lookups of x, y and the never-defined z and _w on every object; 2-object forests also with the name set {x, _y} (a private name), and with a root that is a bear child of a concrete str / arr / int value"
 		}
-		b["accessors"] = "o.name(7), o['name], which, proto, ancestors, kindOf? (all pairs), keys"
+		b["accessors"] = "o.name(7), o['name], which, proto, ancestors, kindOf? (all pairs), keys - all asserted after the objects have been used as ** expansions of a function call and of a property call"
 	case "C14":
 		if tier == "thorough" {
 			b["history_length"] = "1..2 operations with the full ranges, 3 operations with narrow ranges (lim 0..2, stride 1..2, starts -1..2); + two final rounds of next on both iterators"
@@ -579,7 +601,7 @@ func boundsFor(id, tier string, jobs []*Job) map[string]interface{} {
 		b["step_forms"] = "property call, literal call, operator call in chain form, property call with a positional and a keyword argument, property call with two positional arguments — all 5^k combinations (solver choices)"
 		b["failure"] = "K any value in [0, k] (0 = none); error kind one of ValueErr, TypeErr, ZeroDivisionErr, NameErr, NoPropErr, AssertionErr"
 		b["accessors"] = "A, val, err, val?, err?, or, abandon, catch (matching and non-matching type), ignore"
-		b["nested"] = "a step (literal, method, literal after an operator step) that succeeds with an Either value (failed or not) as its result; a chain started on an Either value; receiver any int in (2, 1000)"
+		b["nested"] = "a step (literal, method, literal after an operator step) that succeeds with an Either value (failed or not) or an error value (as delivered by .err) as its result; a chain started on an Either value; receiver any int in (2, 1000)"
 		b["reuse"] = "an Either bound to a name and continued two or three ways (operator step, literal step, failing step, catch), receiver any int in (2, 1000)"
 	case "C18":
 		b["payloads"] = "ints: any int64; floats: any 64-bit pattern; strs: pool of 4; containers: a symbolic int element/key/bound in several shapes that are sub- and supersets of each other (arrays of 0..2 elements; objects {}, {a}, {a, b}, a bear child; maps with scalar and non-scalar keys: {n}, {n, [1]}, {n, 'k}, {[1]}, {[1], {a: 1}}, {})"
@@ -589,7 +611,7 @@ func boundsFor(id, tier string, jobs []*Job) map[string]interface{} {
 			b["pairs"] = "14 same-kind + 14 cross-kind pairs for the equality laws; 6 ordered kinds for order laws; triples of one ordered kind for transitivity"
 		}
 	case "C08":
-		b["templates"] = "42 constructs (incl. equality of objects / maps whose entries both differ and raise in ==; every scalar chain kind and the lonely / thoughtful list chains with nil receivers, nil elements and empty receivers; 4 of them written over several source lines) with side-effecting slots mark(i): array/object/map literals, range bounds, infix operands, positional + keyword arguments, receiver/chain argument/arguments/kwargs of a chained property call, interpolated string parts, duplicate kwargs/object keys/map keys, ** unpacking into objects/maps/calls, keys, printing, equality, kwarg defaults, object/map iteration, nested calls"
+		b["templates"] = "49 constructs (incl. calls with two ** expansions sharing a name; printing of maps whose keys print alike and of functions with duplicate keyword parameters, the order in which equality calls the == of the entries; equality of objects / maps whose entries both differ and raise in ==; every scalar chain kind and the lonely / thoughtful list chains with nil receivers, nil elements and empty receivers; 4 of them written over several source lines) with side-effecting slots mark(i): array/object/map literals, range bounds, infix operands, positional + keyword arguments, receiver/chain argument/arguments/kwargs of a chained property call, interpolated string parts, duplicate kwargs/object keys/map keys, ** unpacking into objects/maps/calls, keys, printing, equality, kwarg defaults, object/map iteration, nested calls"
 		b["map_sizes"] = "Go maps with 2..4 entries are permuted; larger maps iterate in insertion order"
 		if tier == "thorough" {
 			b["orders"] = "all n! permutations per range"
@@ -597,7 +619,7 @@ func boundsFor(id, tier string, jobs []*Job) map[string]interface{} {
 			b["orders"] = "n rotations + reversal per range"
 		}
 	case "C07":
-		b["templates"] = "31 constructs (incl. statements after yield / guarded yield / defer, method bodies, predicates of native loop helpers): array/object/map literals, range bounds, infix operands, call args + kwargs, receiver + args of a property call, if condition, embedded string parts, list/strict-list/reduce chains in literal-call and property-call form, statement list, callee expression, chain argument, function body, assignment, * unpacking, try step, thoughtful chain, lonely chain receiver, nested literals, range inside array"
+		b["templates"] = "49 constructs (incl. calls with two ** expansions sharing a name; callbacks of 7 native Iterable methods and 9 native iterator combinators - lazyMap, append, prepend, chain, withI, zip, acc, while, until - consuming an iterator whose element function raises; statements after yield / guarded yield / defer, method bodies, predicates of native loop helpers): array/object/map literals, range bounds, infix operands, call args + kwargs, receiver + args of a property call, if condition, embedded string parts, list/strict-list/reduce chains in literal-call and property-call form, statement list, callee expression, chain argument, function body, assignment, * unpacking, try step, thoughtful chain, lonely chain receiver, nested literals, range inside array"
 		b["failure_position"] = "K any value in [0, m] (0 = no failure), m <= 4 slots per template"
 		b["error_kinds"] = "ValueErr, TypeErr, ZeroDivisionErr, StopIterErr, NameErr, NoPropErr (solver choice); StopIterErr is excluded for the one template whose slots run inside the body of an iterator that A is consuming (there it is the protocol's end signal, C14)"
 	case "C15":
@@ -610,7 +632,7 @@ func boundsFor(id, tier string, jobs []*Job) map[string]interface{} {
 		b["nesting"] = "function called from an enclosing function that continues after the call (defer leak to the caller is visible)"
 	case "C12":
 		b["condition_values"] = "int: any int64; float: any 64-bit pattern (NaN, infinities, signed zeros); str/arr/obj/map: empty and one-element; nil; true; false; Int.bear.new(v) for any int64 v; bear child of an array; object with user-defined B returning either boolean; range; function; objects whose B is a non-boolean value, nil, or a method returning a non-boolean; a BaseObj child with no B at all; descendants that carry their own B (either boolean): Int.bear({B}).new(v) and v.bear({B}) for any int64 v, Float.bear({B}).new(f) for any bit pattern, Str / Arr descendants (empty and not), a child of nil, a grandchild inheriting B, a child of an empty / non-empty map; booleans produced by 15 operations / built-ins in both polarities (JSON.dec at top level, in an array, in an object; == != === < ! kindOf? empty? val? err? B any? all? even? has?)"
-		b["constructs"] = "c.B, `x if c else y`, `x if c`, !c, c && x, c || x, guarded return / raise / yield / defer (11 templates per condition value)"
+		b["constructs"] = "c.B, `x if c else y`, `x if c`, !c, c && x, c || x, guarded return / raise / yield / defer, and || / && / ||= / &&= whose result is bound to the name of the left operand in the owning scope and inside closures (19 templates per condition value)"
 	case "C10":
 		b["operands"] = "a, b: any int64 (full 64-bit range) for + - * // % <=> / and unary -, called through the IntProps table and (except /) through parsed source `a op b` evaluated by Eval in the bootstrapped world (plus < == >=)"
 		if tier == "thorough" {
